@@ -327,6 +327,15 @@ fn main() {
             deep.push((format!("semver-identifiers n={n}"), a(&["render", &format!("1.0.0-{}a", rep("a.", n.min(2000)))]), None));
             deep.push((format!("pep440-release n={n}"), a(&["render", "-f", "pep440", &format!("{}1", rep("1.", n.min(2000)))]), None));
         }
+        // versions with thousands of dot-separated parts (a section-size limit anywhere between the parser and the renderer
+        // must be a diagnostic, never an `expect`): just above 2^12 and 10^4, thorough also 2^14 and 3 x 10^4
+        for &n in if quick { &[4097usize, 10001][..] } else { &[4097usize, 10001, 16385, 30000][..] } {
+            deep.push((format!("semver-many-prerelease-ids n={n}"), a(&["render", &format!("1.0.0-{}a", rep("a.", n - 1))]), None));
+            deep.push((format!("semver-many-build-ids n={n}"), a(&["render", "--output-format", "pep440", &format!("1.0.0+{}a", rep("a.", n - 1))]), None));
+            deep.push((format!("pep440-many-local-parts n={n}"), a(&["render", "-f", "pep440", &format!("1.0+{}a", rep("a.", n - 1))]), None));
+            deep.push((format!("pep440-many-release-numbers n={n}"), a(&["render", "-f", "pep440", "--output-format", "pep440", &format!("{}1", rep("1.", n - 1))]), None));
+            deep.push((format!("tag-version-many-build-ids n={n}"), a(&["version", "--source", "none", "--tag-version", &format!("1.0.0+{}a", rep("a.", n - 1))]), None));
+        }
         for (name, bytes) in [("stdin-invalid-utf8", vec![0xffu8, 0xfe, b'(']), ("stdin-nul", b"(schema:(core:[var(Major)],extra_core:[],build:[]),vars:(major:Some(1)))\0".to_vec()), ("stdin-bom", b"\xef\xbb\xbf(schema:(core:[var(Major)],extra_core:[],build:[]),vars:(major:Some(1)))".to_vec()), ("stdin-crlf", b"(schema:(core:[var(Major)],extra_core:[],build:[]),\r\nvars:(major:Some(1)))\r\n".to_vec()), ("stdin-latin1", b"(schema:(core:[var(Major)],extra_core:[],build:[]),vars:(major:Some(1),bumped_branch:Some(\"\xe9\")))".to_vec())] {
             for sub in ["version", "flow"] { deep.push((format!("{name} {sub}"), a(&[sub, "--source", "stdin"]), Some(bytes.clone()))); }
         }
